@@ -556,14 +556,15 @@ Section Tape.
   Notation mirror_ok := (@ProofsShell.mirror_ok T V P).
   Notation stopped := (@ProofsShell.stopped T V P).
 
-  (** what the two handles report: the same output, state and [finished()]; positions computed from the same frame
+  (** what the two handles report: the same output, state and [finished()], the same state after the commands of a
+      callback have been read; positions computed from the same frame
       index (as soon as the ring holds the frame being heard) and the same fraction, the streaming one with the
       fraction added *)
   Inductive obs_rel : obs T A -> obs T A -> Prop :=
   | rel_out : forall frames st fin, obs_rel (OOut frames st fin) (OOut frames st fin)
-  | rel_pos : forall px py idx cur fp avail,
+  | rel_pos : forall px py st idx cur fp avail,
       px = ndiv (nofZ idx) (nofZ sr) -> py = ndiv (nadd (nofZ cur) fp) (nofZ sr) ->
-      (2 <= avail -> cur = idx) -> obs_rel (OPos px idx fp 0) (OPos py cur fp avail).
+      (2 <= avail -> cur = idx) -> obs_rel (OPos px st idx fp 0) (OPos py st cur fp avail).
 
   (** the simulation invariant *)
   Definition Inv (x : static T A V P) (w : stream T A V P) : Prop :=
